@@ -169,6 +169,16 @@ def verdict_sources(ctx, rule, only_ellipsis=False):
                 rep.ob(rule, ctx.loc(f, rn.ast), ctx.src(rn.ast), ok, 'the verdict is _check_match on the normalised pair (got, want in that order)' if ok else
                        'the texts compared by _check_match are not the pair returned by normalize (in order)', anchor=q)
                 continue
+            vv = v.args[0] if isinstance(v, ast.Call) and is_name(v.func, 'bool') and len(v.args) == 1 else v
+            if q == CM and isinstance(vv, ast.BoolOp) and isinstance(vv.op, ast.And) and len(vv.values) == 2:
+                # `flag and _ellipsis_match(got, want)`: the matcher is evaluated only when the flag is true
+                em_calls = [x for x in vv.values if isinstance(x, ast.Call) and _resolves(ctx, f, x, EM)]
+                if len(em_calls) == 1:
+                    fs_ = graph.guard_facts_at(dom, rn, em_calls[0])
+                    ok_em = any(canon_fact(fa) == ('key', 'ELLIPSIS', True) for fa in fs_)
+                    rep.ob(rule, ctx.loc(f, rn.ast), ctx.src(rn.ast), ok_em,
+                           'the verdict of the wildcard matcher, consulted only under ELLIPSIS' if ok_em else 'the wildcard matcher decides although ELLIPSIS is not known to be on', anchor=q)
+                    continue
             if isinstance(v, ast.Compare) and _eq_of(v, pg, pw):
                 rep.ob(rule, ctx.loc(f, rn.ast), ctx.src(rn.ast), True, 'equality of the texts', nontrivial=False, anchor=q)
                 continue
